@@ -33,7 +33,11 @@ META = {
                   "as the last reference goes (the model's Drop is 'finalizer has run'); one thread per connection. NOT covered by the "
                   "theorems, only by the implementation-level oracle: user-class instances, classes and modules (nested HANDLE_INSPECT for "
                   "every fresh proxy, several live proxies of one object) and objects whose key changes while lent (the model's Morph "
-                  "operation states the mechanism but is not validated by correspondence).",
+                  "operation states the mechanism but is not validated by correspondence). Also outside the positive theorems and stated "
+                  "only as operations with witness theorems (SendFail, ReplyFail, SendBadSibling, CloseInCallee; validated by correspondence "
+                  "on drained connections): a message whose boxing/encoding fails after _box registered siblings, a message the peer cannot "
+                  "unbox, a callee that closes the connection and returns by reference; theorem 4' covers operations issued after close() "
+                  "returned, not results boxed by a request that was being served while the connection closed.",
     "technique": "Coq proof by induction over operation lists with a counting invariant; regenerated parameters tied by reflexivity; "
                  "differential correspondence of the extracted model with real connection pairs under harness-controlled delivery",
     "gen": ["colls"],
@@ -55,7 +59,8 @@ from rpyc.core.service import VoidService
 from rpyc.lib import get_id_pack, Timeout
 from rpyc.lib.colls import RefCountingColl
 
-STD_PARAMS = [0, 1, 0, 1, 1, 1, [0], 1, 0, 0, 1]     # fallback only: the facts of the pinned tree
+STD_PARAMS = [0, 1, 0, 1, 1, 1, [0], 1, 1, 1, 1, 0, 0]
+FACTS = {"failed_send_releases": False}      # set from the generated facts before histories run     # fallback only: the facts of the pinned tree
 _HDR = struct.Struct("!LB")
 
 
@@ -202,15 +207,45 @@ def decode(frame, idmap, bad_callee=None):
 # every lendable object k answers a call (flag, *rest): flag 0 -> k, flag 1 -> its first argument (by reference),
 # flag 2 -> raises
 
-def _answer(i, flag, rest):
+# flag 3 / 5 -> its first argument together with something that cannot be encoded / boxed, flag 4 -> closes the owner's
+# connection and then returns its first argument (function objects only)
+
+UNENCODABLE = 10 ** 5000        # brine accepts an int, dumping it exceeds the interpreter's digit limit
+
+
+class Unboxable(object):
+    """an object whose key cannot be computed: get_id_pack's hasattr() probes end in a RuntimeError"""
+
+    def __getattr__(self, name):
+        raise RuntimeError("no attribute access on this object")
+
+
+class _Raiser(object):
+    def __getattr__(self, name):
+        raise RuntimeError("inspection of this attribute fails")
+
+
+class BadSibling(object):
+    """boxes fine, but the owner cannot answer the peer's HANDLE_INSPECT for it (get_methods probes every attribute)"""
+    defaults = _Raiser()
+
+
+def _answer(i, flag, rest, pair=None):
     if flag == 2:
         raise ValueError("lent object %d was asked to raise" % i)
+    if flag == 3:
+        return (rest[0], UNENCODABLE)
+    if flag == 5:
+        return (rest[0], Unboxable())
+    if flag == 4:
+        pair.A.close()
+        return rest[0]
     return rest[0] if (flag and rest) else i
 
 
-def make_function(i):
+def make_function(i, pair=None):
     def lent(flag=0, *rest):
-        return _answer(i, flag, rest)
+        return _answer(i, flag, rest, pair)
     return lent
 
 
@@ -353,8 +388,10 @@ class Pair(object):
             return px
         self.B._netref_factory = remembering_factory
         self.kind = kind
-        mk = {"function": make_function, "instance": Thing, "class": make_class, "module": make_module}[kind]
+        mk = {"function": lambda i: make_function(i, pair), "instance": Thing, "class": make_class, "module": make_module}[kind]
         self.objs = [mk(i) for i in range(nobj)]
+        self.bad_siblings = []      # BadSibling objects lent so far (their own entries are lost too)
+        self.excluded = {}          # situations outside the theorems met so far -> objects involved: "failed-message", "bad-sibling"
         self.wr = [weakref.ref(o) for o in self.objs]
         self.keys = [get_id_pack(o) for o in self.objs]
         self.idmap = {(str(k[0]), k[1], k[2]): i for i, k in enumerate(self.keys)}
@@ -378,7 +415,8 @@ class Pair(object):
         return [(d[k][1] if k in d else None) for k in self.keys]
 
     def foreign_keys(self):
-        return [k for k in self.A._local_objects._dict if k not in self.keys]
+        bad = [get_id_pack(o) for o in self.bad_siblings]
+        return [k for k in self.A._local_objects._dict if k not in self.keys and k not in bad]
 
     def live_proxies(self, k=None):
         """the proxies of lent objects that are alive at the peer (whoever references them)"""
@@ -444,8 +482,8 @@ class Pair(object):
             return ((objs[0], (objs[1],)),) + tuple(objs[2:])
         return tuple(objs)
 
-    def send(self, ks, nest=0, boom=False):
-        args = self._args(ks, nest)
+    def send(self, ks, nest=0, boom=False, extra=()):
+        args = self._args(ks, nest) + tuple(extra)
         try:
             res = netref.asyncreq(self.keep_bad if boom else self.keep, consts.HANDLE_CALL, args, ())
         except EOFError:
@@ -454,6 +492,51 @@ class Pair(object):
             raise
         self.pendingA.append((res, boom))
 
+    def send_fail(self, ks, variant):
+        """lend ks in one call together with a sibling that cannot be encoded (0) / boxed (1): the call must raise"""
+        if self.closed:
+            return self.send(ks, 0, False, (UNENCODABLE,))
+        try:
+            self.send(ks, 0, False, (UNENCODABLE,) if variant == 0 else (Unboxable(),))
+        except (ValueError, RuntimeError):
+            if not FACTS["failed_send_releases"]:       # otherwise a failed call has to be harmless
+                self.excluded.setdefault("failed-message", set()).update(ks)
+            return
+        raise AssertionError("a call with an unencodable / unboxable argument did not raise")
+
+    def reply_fail(self, c, r, variant):
+        self.sync()
+        self.sync()
+        if self.use(c, [r], 3 if variant == 0 else 5):
+            if not FACTS["failed_send_releases"]:
+                self.excluded.setdefault("failed-message", set()).add(r)
+            self.poll_owner()
+
+    def send_bad_sibling(self, ks):
+        if self.closed:
+            return self.send(ks, 0, False, ())
+        self.sync()
+        self.sync()
+        sib = BadSibling()
+        self.bad_siblings.append(sib)
+        self.excluded.setdefault("bad-sibling", set()).update(ks)
+        args = (sib,) + self._args(ks, 0)
+        self.pendingA.append((netref.asyncreq(self.keep, consts.HANDLE_CALL, args, ()), True))
+        self.poll_peer(threaded=True)
+
+    def close_in_callee(self, c, r):
+        self.sync()
+        self.sync()
+        if self.use(c, [r], 4):
+            try:
+                self.poll_owner()
+            except EOFError:
+                pass        # the owner cannot answer any more
+            if self.A.closed:
+                self.closed = True
+                self.close_fault, self.close_by_peer = 3, False
+                gc.collect()
+
     def _collect_dropped_traceback(self, conn, before):
         """a traceback that _last_traceback no longer references is cyclic garbage (frame -> local `tb` -> frame): what its frames
         kept alive goes when the cycle collector runs.  The harness runs it at this defined point (automatic collection is off
@@ -461,15 +544,15 @@ class Pair(object):
         if id(conn._last_traceback) != before:
             gc.collect()
 
-    def poll_peer(self):
+    def poll_peer(self, threaded=False):
         before = id(self.B._last_traceback)     # not the traceback itself: the frames of the next traceback reach this frame (f_back)
         try:
-            return self._poll_peer()
+            return self._poll_peer(threaded)
         finally:
             self._collect_dropped_traceback(self.B, before)
 
-    def _poll_peer(self):
-        if self.kind == "function":
+    def _poll_peer(self, threaded=False):
+        if self.kind == "function" and not threaded:
             return self.B.poll()
         # unboxing a user-class instance makes the peer wait for the owner's HANDLE_INSPECT answer: let the owner serve
         res = []
@@ -478,7 +561,7 @@ class Pair(object):
         deadline = time.monotonic() + LONG
         while t.is_alive():
             if any(m == ["other", consts.HANDLE_INSPECT] for m in self.in_flight(False)):
-                self.A.poll()
+                self.poll_owner()
             else:
                 t.join(0.0002)
             if time.monotonic() > deadline:
@@ -660,16 +743,22 @@ def model_op(op):
     if t == "rawlocal": return [11, op[1]]
     if t == "sendraise": return [12, list(op[1])]
     if t == "morph": return [13, op[1]]
+    if t == "sendfail": return [14, list(op[1])]
+    if t == "replyfail": return [15, op[1], op[2]]
+    if t == "sendbadsib": return [16, list(op[1])]
+    if t == "closeincallee": return [17, op[1], op[2]]
     raise ValueError(op)
 
 
-AFTER_CLOSE = ("send", "sendsync", "sendraise", "forget", "morph")     # what still does something on a closed connection
+AFTER_CLOSE = ("send", "sendsync", "sendraise", "sendfail", "sendbadsib", "forget", "morph")     # what still does something on a closed connection
 
 
 def apply_op(p, op):
     t = op[0]
     if p.closed:
         if t in ("send", "sendsync", "sendraise"): p.send(op[1], op[2], t == "sendraise")
+        elif t == "sendfail": p.send_fail(op[1], op[2])
+        elif t == "sendbadsib": p.send_bad_sibling(op[1])
         elif t == "forget": p.forget(op[1])
         elif t == "morph": p.morph(op[1])
         return
@@ -688,6 +777,10 @@ def apply_op(p, op):
     elif t == "close": p.close(op[1], op[2] if len(op) > 2 else 0)
     elif t == "rawdel": p.raw_del(op[1], op[2])
     elif t == "rawlocal": p.raw_local(op[1])
+    elif t == "sendfail": p.send_fail(op[1], op[2])
+    elif t == "replyfail": p.reply_fail(op[1], op[2], op[3])
+    elif t == "sendbadsib": p.send_bad_sibling(op[1])
+    elif t == "closeincallee": p.close_in_callee(op[1], op[2])
     else: raise ValueError(op)
 
 
@@ -730,6 +823,19 @@ def gen_history(r, nobj, nops, flavour, kind="function"):
                 ops.append(["sendraise", [k] * r.choice([1, 1, 2]), r.choice([0, 1])])
             else:
                 ops.append(["use", k, [K() for _ in range(r.choice([0, 0, 1]))], 2])
+            continue
+        if flavour == "failing" and c < 0.16:
+            # situations outside the theorems: a sibling that cannot be encoded / boxed (request or reply), a sibling the peer
+            # cannot unbox, a callee that closes the connection and returns by reference
+            x = r.random()
+            if x < 0.4:
+                ops.append(["sendfail", [K() for _ in range(r.choice([1, 1, 2]))], r.choice([0, 1])])
+            elif x < 0.7:
+                ops.append(["replyfail", K(), K(), r.choice([0, 1])])
+            elif x < 0.93:
+                ops.append(["sendbadsib", [K() for _ in range(r.choice([1, 1, 2]))]])
+            else:
+                ops.append(["closeincallee", K(), K()])
             continue
         if flavour == "morph" and c < 0.06:
             k = K()
@@ -792,7 +898,7 @@ def epilogue(nobj):
 
 
 def has_close(ops):
-    return any(o[0] == "close" for o in ops)
+    return any(o[0] in ("close", "closeincallee") for o in ops)
 
 
 # ------------------------------------------------------------------ oracle and correspondence
@@ -806,7 +912,7 @@ def observe(p):
             "closed": bool(p.A.closed)}
 
 
-CLOSE_FAULT = {0: "", 1: ":before_closed-raised", 2: ":on_disconnect-raised"}
+CLOSE_FAULT = {0: "", 1: ":before_closed-raised", 2: ":on_disconnect-raised", 3: ":result-boxed-after-close-in-callee"}
 
 
 def oracle(ctx, p, st, case, step, valid):
@@ -819,6 +925,17 @@ def oracle(ctx, p, st, case, step, valid):
             observed = {"underlying": sig, "detail": observed, "objects_whose_key_changed": sorted(p.morphed)}
             sig, what = "release-lost-after-identity-change", ("the lent object's key (class / module registration) changed while it was lent; "
                                                                "its release notice is then lost: " + what)
+        elif p.excluded and not st["closed"] and sig in ("count-mismatch", "leak-at-quiescence", "object-kept-alive-after-release", "foreign-entry"):
+            obj = observed.get("object") if isinstance(observed, dict) else None
+            kinds = [k for k, objs in sorted(p.excluded.items()) if obj is None or obj in objs] or sorted(p.excluded)
+            observed = {"underlying": sig, "detail": observed, "situations": kinds}
+            if kinds[0] == "failed-message":
+                sig, what = "registered-by-failed-message-never-released", ("a request or reply could not be boxed / encoded after _box had registered "
+                                                                            "the siblings passed by reference; they stay registered for ever: " + what)
+            else:
+                sig, what = "reference-consumed-without-proxy-never-released", ("the peer consumed a message but failed to unbox it (INSPECT of a sibling raised); "
+                                                                                "the references it carried are never given back: " + what)
+            fatal = False       # the history goes on (the model states the same outcome); later consequences carry the same signature
         if fatal:
             sigs.append(sig)
         ctx.violation(sig, dict(case, failed_step=step), observed=observed, expected=expected, what=what)
@@ -828,7 +945,8 @@ def oracle(ctx, p, st, case, step, valid):
             p.empty_after_close = not (left or len(p.A._local_objects._dict))
             if not p.empty_after_close:
                 viol("close-leaves-entries" + CLOSE_FAULT[p.close_fault], "after closing, the owner's connection still references lent objects"
-                     + (" (a hook raised while closing)" if p.close_fault else ""), {"slots": st["slots"], "by_peer": p.close_by_peer}, "empty table")
+                     + (" (the callee closed the connection, then its result was boxed)" if p.close_fault == 3 else
+                        " (a hook raised while closing)" if p.close_fault else ""), {"slots": st["slots"], "by_peer": p.close_by_peer}, "empty table")
         elif p.empty_after_close and (left or len(p.A._local_objects._dict)):
             viol("entry-added-after-close", "lending through the closed connection was refused, yet the object stays referenced by it for ever",
                  {"slots": st["slots"]}, "empty table")
@@ -891,7 +1009,8 @@ def oracle(ctx, p, st, case, step, valid):
         viol("send-result-unexpected", "a lending call returned something else than None (or a call of the raising function did not raise)",
              p.bad_results[:3], "None")
     for (c, mode, is_exc, val) in p.use_results:
-        good = (is_exc and val == "ValueError") if mode == 2 else (not is_exc and (val == "ref" or val == c))
+        good = (is_exc and val == "ValueError") if mode == 2 else (is_exc and val in ("ValueError", "RuntimeError")) if mode in (3, 5) \
+            else True if mode == 4 else (not is_exc and (val == "ref" or val == c))
         if not good:
             viol("proxy-unusable", "an operation through a live proxy failed or reached another object",
                  {"proxy": c, "mode": mode, "is_exc": is_exc, "value": _show(val)[:80]}, "result of object %d" % c)
@@ -1039,10 +1158,12 @@ def run_coll(n, ops):
 def get_params(ctx):
     try:
         from tools.pygen import colls
-        return colls.params_sx(C.REPO)
+        params = colls.params_sx(C.REPO)
     except Exception as e:
         ctx.count("params:fallback-std")
-        return STD_PARAMS
+        params = STD_PARAMS
+    FACTS["failed_send_releases"] = bool(params[11])
+    return params
 
 
 def nontrivial(stats):
@@ -1107,6 +1228,15 @@ CORPUS = [
     (2, [["sendsync", [0, 1], 0], ["close", True, 2], ["forget", 0], ["forget", 1]]),
     (2, [["sendsync", [0], 0], ["close", False, 0], ["send", [0, 1], 0], ["sendsync", [1], 1], ["forget", 0], ["forget", 1]]),
     (1, [["sendsync", [0], 0], ["close", True, 0], ["send", [0], 0], ["forget", 0]]),
+    # a sibling in the same message cannot be encoded / boxed (request, reply); the peer cannot unbox a sibling; the callee closes
+    (1, [["sendsync", [0], 0], ["sendfail", [0], 0]]),
+    (2, [["sendfail", [1, 0], 1], ["sendsync", [0], 0]]),
+    (2, [["sendsync", [0, 1], 0], ["replyfail", 0, 1, 0]]),
+    (1, [["sendsync", [0], 0], ["replyfail", 0, 0, 1]]),
+    (2, [["sendsync", [0], 0], ["sendbadsib", [1, 0]]]),
+    (1, [["sendbadsib", [0]]]),
+    (2, [["sendsync", [0, 1], 0], ["closeincallee", 0, 1], ["send", [0], 0], ["forget", 0], ["forget", 1]]),
+    (1, [["sendsync", [0], 0], ["close", False, 0], ["sendfail", [0], 0], ["sendbadsib", [0]], ["forget", 0]]),
 ]
 
 CORPUS2 = [
@@ -1127,7 +1257,8 @@ def run(ctx):
     model = model if model.available() else None
     params = get_params(ctx)
     ctx.coverage_extra["rule"] = (
-        "histories over 1-4 lent objects generated from the seeded PRNG in five flavours (valid / biased to release notices crossing fresh "
+        "histories over 1-4 lent objects generated from the seeded PRNG in six flavours (valid / failing: a sibling in the same request or reply that cannot be "
+        "encoded or boxed, a sibling the peer cannot unbox because its INSPECT raises, a callee that closes the connection and returns by reference / biased to release notices crossing fresh "
         "references / raising: remote calls that raise at the owner or at the peer / boundary: 0..17 repeats in one tuple, operations on "
         "never-lent objects, deliveries on empty streams / malformed: release notices and local references the peer is not entitled to send), "
         "each followed by an epilogue that uses every live proxy, drops everything, drains and forgets the objects, or by a close from either side "
@@ -1145,7 +1276,7 @@ def run(ctx):
         cases.append({"nobj": nobj, "ops": body, "flavour": "corpus", "params": params})
     n_hist = 1500 if ctx.quick else 6000
     for i in range(n_hist):
-        flavour = ("valid", "raising", "race", "race", "boundary", "malformed", "valid", "raising")[i % 8]
+        flavour = ("valid", "raising", "race", "failing", "boundary", "malformed", "valid", "raising", "race", "failing")[i % 10]
         nobj = r.choice([1, 2, 2, 3, 4])
         if ctx.quick:
             nops = r.choice([6, 12, 20, 30])
